@@ -203,6 +203,43 @@ def run(ctx):
             if ref is None: ref = fun
             elif abs(fun - ref) > (2e-3 if opt == 'minuit' else 1e-5) * (1 + abs(ref)):
                 ctx.fail('C05/configuration-dependence', 'attained objective depends on stitch/grad/optimiser/backend beyond tolerance', inp, fun, ref)
+    # ---------------- directed: whose flags decide what a fit holds constant?  on/off models (closed forms proved in C08_OnOff.lean) whose
+    # measurement declares the background normalisation constant; the caller's explicit flags are used as given — an all-False mask frees
+    # it (free optimum: both counts reproduced; conditional optimum: k-hat(mu)), a mask holding it keeps it at its starting value
+    for h in range(ctx.n(8, 120)):
+        s_ = rng.choice([5.0, 8.0, 12.0]); b_ = rng.choice([30.0, 50.0, 80.0]); tau = rng.choice([1.0, 2.0])
+        kt = rng.choice([0.8, 1.2, 1.4]); mt = rng.choice([0.5, 1.0, 2.0])
+        m_ = float(round(kt * tau * b_)); n_ = float(round(mt * s_ + kt * b_))
+        for optname in ('scipy', 'minuit'):
+            pyhf.set_backend('numpy', pyhf.optimize.scipy_optimizer(tolerance=1e-10) if optname == 'scipy' else pyhf.optimize.minuit_optimizer(tolerance=1e-4))
+            spec = counting.onoff_spec(s_, b_, tau, k_fixed=True)
+            m = pyhf.Model(spec, poi_name='mu')
+            ik = m.config.par_order.index('k_bkg'); ip = m.config.poi_index
+            data = [m_, n_]
+            for what in ('fit/all-false', 'fixed_poi_fit/all-false', 'fit/declared', 'fit/caller-holds'):
+                inp = {'spec': spec, 'data': data, 'optimizer': optname, 'call': what}
+                try:
+                    if what == 'fit/all-false':
+                        pars, fun = pyhf.infer.mle.fit(data, m, fixed_params=[False, False], return_fitted_val=True)
+                        kh = m_ / (tau * b_); want = counting.onoff_two_nll((n_ - kh * b_) / s_, kh, n_, m_, s_, b_, tau)
+                    elif what == 'fixed_poi_fit/all-false':
+                        pars, fun = pyhf.infer.mle.fixed_poi_fit(1.0, data, m, fixed_params=[False, False], return_fitted_val=True)
+                        want = counting.onoff_two_nll(1.0, counting.onoff_khat(1.0, n_, m_, s_, b_, tau), n_, m_, s_, b_, tau)
+                    elif what == 'fit/declared':
+                        pars, fun = pyhf.infer.mle.fit(data, m, return_fitted_val=True)
+                        mh = counting.muhat_multi([m_, n_], [0.0, s_], [tau * b_, b_]); want = counting.onoff_two_nll(mh, 1.0, n_, m_, s_, b_, tau)
+                    else:
+                        m2 = pyhf.Model(counting.onoff_spec(s_, b_, tau), poi_name='mu')
+                        pars, fun = pyhf.infer.mle.fit(data, m2, fixed_params=[k == ik for k in range(2)], return_fitted_val=True)
+                        mh = counting.muhat_multi([m_, n_], [0.0, s_], [tau * b_, b_]); want = counting.onoff_two_nll(mh, 1.0, n_, m_, s_, b_, tau)
+                except Exception as e:  # noqa
+                    ctx.fail('C05/closed-form-fit-failed', f'fit failed ({type(e).__name__}) on an on/off model', inp, str(e)[:200]); continue
+                ctx.count(); ctx.tally('onoff_fit', what)
+                # pyhf's objective keeps the data-only constants: compare differences to the saturated point instead of absolute values
+                const = float(fun) - counting.onoff_two_nll(float(pars[ip]), float(pars[ik]), n_, m_, s_, b_, tau)
+                got = float(fun) - const
+                if abs(got - want) > 1e-4 * (1 + abs(want)):
+                    ctx.fail('C05/onoff-optimum', 'a fit does not attain the closed-form optimum over exactly the parameters the call leaves free', inp, got, want)
     # ---------------- histories: a fit must not depend on the options of earlier fits on the same optimiser object (per-call solver
     # options, tolerances, iteration limits are per call); compared with the same fit on a fresh optimiser
     for h in range(ctx.n(6, 60)):
